@@ -269,6 +269,8 @@ pub struct HModel<R: HistRep> {
     /// every state seen by the property check: Debug(real) -> (real, abs)
     pub seen: Mutex<BTreeMap<String, (R, Abs)>>,
     pub collect: bool,
+    /// a few actual transitions of this run, for the evidence file
+    pub samples: Mutex<Vec<Value>>,
 }
 
 /// Applies `act` to the reference model. `Err(())` = the call must be rejected
@@ -432,6 +434,13 @@ impl<R: HistRep> HModel<R> {
         let mut abs = last.abs.clone();
         let old_w = abs.w.clone();
         let (mut fault, rejected) = step(&mut real, &mut abs, action, &self.ids);
+        if last.abs.a.len() == 2 && (rejected || abs != last.abs) {
+            if let Ok(mut sm) = self.samples.try_lock() {
+                if sm.len() < 2 && !sm.iter().any(|x| x.get("rejected") == Some(&json!(rejected))) {
+                    sm.push(json!({"rep": R::NAME, "model": self.label, "state": last.abs.arcs_json(), "action": action.json(), "rejected": rejected, "next_state": abs.arcs_json()}));
+                }
+            }
+        }
         // C20: mutating the clone never changes the original, and vice versa
         if fault.is_none() && (format!("{:?}", last.real) != orig_dbg || keep != last.real) {
             fault = Some(format!("{action:?} applied to a clone changed the original"));
@@ -480,7 +489,7 @@ fn model_for<R: HistRep>(label: &str, inits: Vec<(String, R, Abs)>, ids: Vec<usi
             actions.push(Act::Toggle(u, v));
         }
     }
-    HModel { label: label.to_string(), inits, actions, ids, transitions: AtomicU64::new(0), rejected: AtomicU64::new(0), noop: AtomicU64::new(0), replaced: AtomicU64::new(0), seen: Mutex::new(BTreeMap::new()), collect }
+    HModel { label: label.to_string(), inits, actions, ids, transitions: AtomicU64::new(0), rejected: AtomicU64::new(0), noop: AtomicU64::new(0), replaced: AtomicU64::new(0), seen: Mutex::new(BTreeMap::new()), collect, samples: Mutex::new(Vec::new()) }
 }
 
 pub struct HistOut {
@@ -542,6 +551,9 @@ fn run_model<R: HistRep>(prop: &str, m: HModel<R>, threads: usize, ctx: &mut Ctx
         });
     }
     let _ = prop;
+    if ctx.samples.len() < 10 {
+        ctx.samples.extend(m.samples.lock().unwrap().iter().cloned());
+    }
     let mut out = HistOut {
         label,
         states,
